@@ -3,6 +3,7 @@ package dag
 import (
 	"errors"
 	"fmt"
+	"math"
 	"os"
 	"os/exec"
 	"regexp"
@@ -96,6 +97,9 @@ var (
 	)
 	errExecutorConfigMustBeStringOrMap = errors.New(
 		"executor config must be string or map",
+	)
+	errExecutorConfigValueInvalid = errors.New(
+		"executor config value cannot be serialized",
 	)
 )
 
@@ -696,43 +700,62 @@ func assignValues(command string, params map[string]string) string {
 	return updatedCommand
 }
 
-// convertMap converts a map[any]any to a map[string]any.
+// convertMap converts the nested map[any]any values (also those inside
+// lists) to map[string]any, so that the executor config can be serialised as
+// JSON when the status of the DAG is recorded.
 func convertMap(m map[string]any) error {
-	if m == nil {
-		return nil
-	}
-
-	queue := []map[string]any{m}
-
-	for len(queue) > 0 {
-		curr := queue[0]
-
-		for k, v := range curr {
-			mm, ok := v.(map[any]any)
-			if !ok {
-				// TODO: do we need to return an error here?
-				continue
-			}
-
-			ret := make(map[string]any)
-			for kk, vv := range mm {
-				key, err := parseKey(kk)
-				if err != nil {
-					return fmt.Errorf(
-						"%w: %s", errExecutorConfigMustBeString, err,
-					)
-				}
-				ret[key] = vv
-			}
-
-			delete(curr, k)
-			curr[k] = ret
-			queue = append(queue, ret)
+	for k, v := range m {
+		converted, err := convertValue(v)
+		if err != nil {
+			return err
 		}
-		queue = queue[1:]
+		m[k] = converted
 	}
 
 	return nil
+}
+
+// convertValue converts a value of the executor config recursively.
+func convertValue(v any) (any, error) {
+	switch val := v.(type) {
+	case map[any]any:
+		ret := make(map[string]any, len(val))
+		for kk, vv := range val {
+			key, err := parseKey(kk)
+			if err != nil {
+				return nil, fmt.Errorf(
+					"%w: %s", errExecutorConfigMustBeString, err,
+				)
+			}
+			converted, err := convertValue(vv)
+			if err != nil {
+				return nil, err
+			}
+			ret[key] = converted
+		}
+		return ret, nil
+
+	case []any:
+		ret := make([]any, len(val))
+		for i, vv := range val {
+			converted, err := convertValue(vv)
+			if err != nil {
+				return nil, err
+			}
+			ret[i] = converted
+		}
+		return ret, nil
+
+	case float64:
+		// NaN and Inf cannot be represented in the JSON status.
+		if math.IsNaN(val) || math.IsInf(val, 0) {
+			return nil, fmt.Errorf(
+				"%w: %v", errExecutorConfigValueInvalid, val,
+			)
+		}
+	}
+
+	return v, nil
 }
 
 // buildConfigEnv builds the environment variables from the map.
